@@ -2,7 +2,7 @@
    tools/tr_iface.py) and the hand model's compute_plain (Model/Interface.v), for any arithmetic: with the oracle "evaluator of the
    r-th propensity object" instantiated by the model's prop_eval of the r-th propensity, each loop fills the caller's array with
    exactly compute_plain's list (whatever the array held before). *)
-From Coq Require Import ZArith List Bool Arith Lia.
+From Coq Require Import ZArith List Bool Arith Lia String.
 From BS Require Import Base.Arith Base.CyPrelude Model.Term Model.Propensity Model.Interface Gen.IfaceGen Proofs.TieQueue.
 Import ListNotations.
 
@@ -10,34 +10,41 @@ Section Tie.
   Context {F : Type} (A : Arith F).
 
   Definition iface_obj (si : simif F) : @ModelCSimInterface_obj F :=
-    {| ModelCSimInterface_c_param_values := si_params si; ModelCSimInterface_num_reactions := length (si_props si) |}.
+    {| ModelCSimInterface_c_param_values := si_params si; ModelCSimInterface_num_reactions := List.length (si_props si) |}.
   Definition nthp (si : simif F) (r : nat) : prop F := nth r (si_props si) (PConst 0%nat).
 
   Lemma loop_is_map (f : nat -> F) (props : list (prop F)) (g : prop F -> F) (dest : list F) :
-    length dest = length props -> (forall r, f r = g (nth r props (PConst 0%nat))) ->
-    for_range (length props) (fun rxn d => upd d rxn (f rxn)) dest = map g props.
+    List.length dest = List.length props -> (forall r, f r = g (nth r props (PConst 0%nat))) ->
+    for_range (List.length props) (fun rxn d => upd d rxn (f rxn)) dest = map g props.
   Proof.
     intros Hl Hf. unfold for_range.
-    pose proof (fill_loop f (length props) [] dest Hl) as E. cbn [length app] in E. rewrite E.
+    pose proof (fill_loop f (List.length props) [] dest Hl) as E. cbn [List.length app] in E. rewrite E.
     rewrite (map_nth_seq g (PConst 0%nat) props). apply map_ext. intro r. apply Hf.
   Qed.
 
+  (* the oracle, by method NAME: the model's evaluator of the r-th propensity in the mode that method stands for *)
+  Definition mode_of_method (name : string) : option mode :=
+    if String.eqb name "get_propensity" then Some Det
+    else if String.eqb name "get_volume_propensity" then Some Vol
+    else if String.eqb name "get_stochastic_propensity" then Some Stoch
+    else if String.eqb name "get_stochastic_volume_propensity" then Some StochVol else None.
+  Definition oracle3 (si : simif F) (V : F) (name : string) (r : nat) (x p : list F) (t : F) : F :=
+    match mode_of_method name with Some m => prop_eval A (nthp si r) m x p V t | None => f0 A end.
+  Definition oracle4 (si : simif F) (name : string) (r : nat) (x p : list F) (V t : F) : F :=
+    match mode_of_method name with Some m => prop_eval A (nthp si r) m x p V t | None => f0 A end.
+
   Lemma tie_iface_plain (si : simif F) (x dest : list F) (V t : F) :
-    length dest = length (si_props si) ->
-    gen_ModelCSimInterface_compute_propensities (fun r x p t => prop_eval A (nthp si r) Det x p V t) A (iface_obj si) x dest t
-      = compute_plain A si Det x V t /\
-    gen_ModelCSimInterface_compute_volume_propensities (fun r x p V t => prop_eval A (nthp si r) Vol x p V t) A (iface_obj si) x dest V t
-      = compute_plain A si Vol x V t /\
-    gen_ModelCSimInterface_compute_stochastic_propensities (fun r x p t => prop_eval A (nthp si r) Stoch x p V t) A (iface_obj si) x dest t
-      = compute_plain A si Stoch x V t /\
-    gen_ModelCSimInterface_compute_stochastic_volume_propensities (fun r x p V t => prop_eval A (nthp si r) StochVol x p V t) A (iface_obj si) x dest V t
-      = compute_plain A si StochVol x V t.
+    List.length dest = List.length (si_props si) ->
+    gen_ModelCSimInterface_compute_propensities (oracle3 si V) A (iface_obj si) x dest t = compute_plain A si Det x V t /\
+    gen_ModelCSimInterface_compute_volume_propensities (oracle4 si) A (iface_obj si) x dest V t = compute_plain A si Vol x V t /\
+    gen_ModelCSimInterface_compute_stochastic_propensities (oracle3 si V) A (iface_obj si) x dest t = compute_plain A si Stoch x V t /\
+    gen_ModelCSimInterface_compute_stochastic_volume_propensities (oracle4 si) A (iface_obj si) x dest V t = compute_plain A si StochVol x V t.
   Proof.
     intro Hl.
     unfold gen_ModelCSimInterface_compute_propensities, gen_ModelCSimInterface_compute_volume_propensities,
            gen_ModelCSimInterface_compute_stochastic_propensities, gen_ModelCSimInterface_compute_stochastic_volume_propensities,
-           compute_plain, iface_obj, nthp.
+           compute_plain, iface_obj.
     cbn [ModelCSimInterface_num_reactions ModelCSimInterface_c_param_values].
-    repeat split; apply loop_is_map; auto.
+    repeat split; apply loop_is_map; try exact Hl; intro r; reflexivity.
   Qed.
 End Tie.
